@@ -235,7 +235,9 @@ def compare(actual, expected, rel=1e-9, scale=1.0):
         if math.isnan(av) or math.isinf(av):
             bad.append((k, av, evf))
             continue
-        tol = rel * max(abs(evf), scale, 1e-300)
+        # relative comparison; the absolute floor follows the magnitude of the data (no fixed floor: tiny data must not hide a miss)
+        floor = 1e-3 * (scale if scale >= 1.0 else scale ** 4)
+        tol = rel * max(abs(evf), abs(av), floor, 1e-300)
         if abs(av - evf) > tol:
             bad.append((k, av, evf))
     return bad
